@@ -817,13 +817,13 @@ func (s *Server) writeToNode(ctx context.Context, b []byte, node Addr, wait, rat
 	// s.config.Logger.WithValues(log.Debug).Printf("writing to %s: %q", node.String(), b)
 	if rate {
 		if wait {
-			err = s.config.SendLimiter.Wait(ctx)
+			err = limiterWait(ctx, s.config.SendLimiter)
 			if err != nil {
 				err = fmt.Errorf("waiting for rate-limit token: %w", err)
 				return false, err
 			}
 		} else {
-			if !s.config.SendLimiter.Allow() {
+			if !limiterAllow(s.config.SendLimiter) {
 				return false, errors.New("rate limit exceeded")
 			}
 		}
@@ -839,7 +839,7 @@ func (s *Server) writeToNode(ctx context.Context, b []byte, node Addr, wait, rat
 		writeErrors.Add(1)
 		if rate {
 			// Give the token back. nfi if this will actually work.
-			s.config.SendLimiter.AllowN(time.Now(), -1)
+			limiterGiveBack(s.config.SendLimiter)
 		}
 		err = fmt.Errorf("error writing %d bytes to %s: %s", len(b), node, err)
 		return
